@@ -33,6 +33,11 @@ func RetrieveSupportedCipherSuites(ctx context.Context, s *V2SessionlessTranspor
 			len(getChannelCipherSuitesCmd.Rsp.CipherSuiteRecordsChunk) < 16 {
 			break
 		}
+		if getChannelCipherSuitesCmd.Req.ListIndex == 0x3f {
+			// the list index is a 6-bit field: this was the last possible
+			// chunk, and incrementing further would wrap around to the first
+			break
+		}
 		getChannelCipherSuitesCmd.Req.ListIndex++
 	}
 	return parseCipherSuiteRecordData(cipherSuiteRecordData.Bytes())
